@@ -48,8 +48,8 @@ def run_c06(pid, tier, seed, replay=None):
                              {"what": "serialisation deviates from FitsLayout: " + d["kind"], "op": ev["op"], "variant": ev.get("variant"), "err": ev.get("err"),
                               "ndim": (ev.get("T") or {}).get("ndim", ev.get("ndim"))})
             nrows += len(rows)
-            if first is None:
-                first = {"op": rows[0]["op"], "T.ndim": rows[0]["T"]["ndim"], "F.hdus": [h["name"] for h in rows[0]["F"]]}
+            if first is None and rows and isinstance(rows[0].get("T"), dict):
+                first = {"op": rows[0]["op"], "T.ndim": rows[0]["T"].get("ndim"), "F.hdus": [h.get("name") for h in rows[0].get("F", []) if isinstance(h, dict)]}
             del rows
         # shipped reference files keep decoding to the same tables
         ship = os.path.join(wd, "shipped.ndjson")
@@ -67,7 +67,8 @@ def run_c06(pid, tier, seed, replay=None):
         ck.cov["evaluations"] = nrows + len(srows)
         ck.cov["distinct_nontrivial"] = nrows
         ck.cov["rule"] = "per random table (1..9-D; 0..9 keys incl. candidates beginning like structural keywords, one table in ten with 40..120 keys): one write event (memory/disk alternating), one library round trip, five reads of codec-written files (layout, no EXTENTS, no PERIOD, reversed extensions, single ORDER key)"
-        ck.sample(first)
+        if first:
+            ck.sample(first)
         return ck.finish(exhaustive=False)
     finally:
         if not os.environ.get("VERIF_KEEP"):
